@@ -1,7 +1,7 @@
 (* C05 — Validator updates keep Tendermint's set equal to the staked set. Statements only. *)
 From Coq Require Import List ZArith NArith Bool.
 From PM Require Import Base.Bytes Store.KV Store.MergeProofs Num.IntModel Num.DecModel Num.DecProofs
-  App.Model App.BankProofs App.TxProofs App.KeyProofs App.Examples.
+  App.Model App.BankProofs App.TxProofs App.KeyProofs App.IndexProofs App.TombProofs App.Examples App.Invariants.
 Import ListNotations.
 Local Open Scope Z_scope.
 
@@ -17,7 +17,19 @@ Theorem C05_rank_key_injective t1 a1 t2 a2 :
 Proof. exact (rank_key_injective t1 a1 t2 a2). Qed.
 Theorem C05_updates_conserve s s' ups : bank_ok s -> update_tm_validators s = Some (s', ups) -> bank_ok s'.
 Proof. exact (update_tm_validators_pres s s' ups). Qed.
+(* in every reachable state of every history, every entry of the power index (the candidates walked by
+   UpdateTendermintValidators) is an existing validator that is staked, not jailed, under the key of its
+   current stake: jailed, unstaking and unstaked validators are never offered to Tendermint *)
+Theorem C05_index_entries_are_staked_unjailed_all_histories ops s s' k a :
+  idx_sound s -> run ops s = Some s' -> aget (powidx s') k = Some a ->
+  exists v, get_val s' a = Some v /\ v_status v = 2%N /\ v_jailed v = false /\ k = rank_key (v_tokens v) a.
+Proof. intros H E. exact (indexed_is_staked_unjailed s' k a (run_is ops s s' H E)). Qed.
+Theorem C05_genesis_index_sound s0 gvals dao s ups :
+  idx_sound s0 -> NoDup (map g_addr gvals) -> (forall g, In g gvals -> aget (vals s0) (g_addr g) = None) ->
+  init_chain s0 gvals dao = Some (s, ups) -> idx_sound s.
+Proof. exact (init_chain_is s0 gvals dao s ups). Qed.
 Example C05_ex : match ex_genesis with Some (s, ups) => ups = [(A1, 2)] /\ aget (prevpow s) A1 = Some 2 | None => False end.
 Proof. vm_compute. split; reflexivity. Qed.
 Print Assumptions C05_rank_key_order.
 Print Assumptions C05_rank_key_injective.
+Print Assumptions C05_index_entries_are_staked_unjailed_all_histories.
